@@ -43,3 +43,12 @@ pub fn lattice16() -> Vec<u16> {
     v.dedup();
     v
 }
+
+pub fn fnv1a(s: &str) -> u64 {
+    let mut h: u64 = 0xcbf29ce484222325;
+    for b in s.bytes() {
+        h ^= b as u64;
+        h = h.wrapping_mul(0x100000001b3);
+    }
+    h ^ (h >> 29)
+}
